@@ -95,7 +95,8 @@ def run(chk, tier):
     for d in disagreements:
         pi = parse_input(d["input"])
         axes = sorted(d["axes"])
-        key = {"kind": pi["kind"], "axes": axes, "scope": pi["scope"], "file": pi["file"], "cfg": d["cfg"], "first": d["first"]}
+        key = {"kind": pi["kind"], "axes": axes, "image": d["image"], "scope": pi["scope"], "file": pi["file"],
+               "cfg": d["cfg"], "first": d["first"]}
         ck = (pi["kind"], tuple(axes), pi["scope"])
         ent = classes.setdefault(ck, {"kind": pi["kind"], "axes": axes, "scope": pi["scope"], "count": 0, "files": []})
         ent["count"] += 1
@@ -153,6 +154,54 @@ def describe_difference(*a):
 
 
 detobs.describe_difference = describe_difference
+
+
+def selftest():
+    """Binding of the trace to the monitor: a recorded trace is accepted; corrupting one digest word, one configuration
+    field or the shape of a digest makes TLC reject it.  Run:  python3 -c "import sys; sys.path[:0]=['/verif','/verif/lib']; import checks.c08 as c; c.selftest()" """
+    import copy
+    b = vlib.vbuild()
+    wd = vlib.scratch("c08self")
+    r = vlib.tlc("DetCfg", "DetCfg", workers=4, timeout=300)
+    confs = [json.loads(l[7:]) for l in r.printed if isinstance(l, str) and l.startswith("CONFIG ")]
+    groups = [g for g in detobs.make_inputs(1, "quick") if g.cls == "tiny"][:1]
+    sel = [c for c in confs if c["dist"] <= 1 and c["cfg"]["gc"]["k"] == 0 and c["cfg"]["inv"] == "sep"]
+    runner = detobs.Runner(b, wd)
+    by_input = detobs.run_all(runner, [(groups[0], c) for c in sel], 8)
+    events = [e for k in sorted(by_input) for _, e in by_input[k]]
+
+    def verdict(evs, cfg="TraceDet"):
+        p = os.path.join(wd, "self.ndjson")
+        vlib.write_ndjson(p, evs)
+        res, dets = detobs.validate([p], cfg, nproc=1)
+        return res[0], dets[0]
+    out = []
+    res, det = verdict(events)
+    out.append(("recorded trace", "accepted" if det and not det["disagreements"] and not res.violated else "REJECTED"))
+    ev2 = copy.deepcopy(events)
+    n = next(i for i, e in enumerate(ev2) if e["digest"][0] >= 0 and i > 0 and ev2[i - 1]["input"] == e["input"])
+    ev2[n]["digest"][2] ^= 1
+    res, det = verdict(ev2)
+    out.append(("one digest word changed", "rejected: %s" % det["disagreements"][0] if det and det["disagreements"] else "ACCEPTED"))
+    res, det = verdict(ev2, "TraceDetStrict")
+    out.append(("same, strict cfg", "rejected: invariant %s" % res.violated if res.violated else "ACCEPTED"))
+    ev3 = copy.deepcopy(events)
+    ev3[7]["cfg"] = dict(ev3[7]["cfg"], gc={"flag": "-Wno-gc", "k": 7, "j": 0})
+    res, det = verdict(ev3)
+    out.append(("configuration outside DetCfg (forced schedule with -Wno-gc)", "rejected: invariant %s" % res.violated if res.violated else "ACCEPTED"))
+    ev4 = copy.deepcopy(events)
+    ev4[3]["digest"] = [1, 2, 3]
+    res, det = verdict(ev4)
+    out.append(("digest with 3 words", "rejected: invariant %s" % res.violated if res.violated else "ACCEPTED"))
+    ev5 = copy.deepcopy(events)
+    ev5[9]["cfg"] = dict(ev5[9]["cfg"], aslr="maybe")
+    res, det = verdict(ev5)
+    out.append(("aslr value outside the axis", "rejected: invariant %s" % res.violated if res.violated else "ACCEPTED"))
+    for o in out:
+        print("%-60s %s" % o)
+    vlib.cleanup_scratch()
+    return out
+
 
 SELFTEST_NOTES = """
 (to be filled in)
